@@ -246,9 +246,12 @@ class Program:
         self.statics = {}
         self.fns = {}
         self.fresh = {}
+        self._tail_index = None
+        self._crate_names = set()
         for p in pkgs:
             data = F.load(p, repo=repo, log=log)
             self.crates[p] = data
+            self._crate_names.add(data.get("crate", p))
             if data.get("missing"):
                 raise SystemExit(f"facts for {p} lack MIR for {data['missing'][:5]} (fail closed)")
             self.fresh[p] = data["_fresh"]
@@ -298,13 +301,27 @@ class Program:
         return [b for b in self.bodies if b.key.startswith(pre) and b.crate == body.crate]
 
     def body_for_callee(self, c):
-        """Local body a call resolves to, if any."""
+        """Local body a call resolves to, if any. Cross-crate callees are printed through their
+        visible (re-exported) path, e.g. `awaiter_set::AwaiterSet::register` for
+        `awaiter_set::set::AwaiterSet::register`: fall back to crate + last two segments when unique."""
         for k in (c.get("resolved"), c.get("path")):
             if not k:
                 continue
-            bs = self.by_key.get(strip_generics(k))
+            key = strip_generics(k)
+            bs = self.by_key.get(key)
             if bs:
                 return bs[0]
+            parts = key.split("::")
+            if len(parts) >= 3 and not key.startswith("<") and parts[0] in self._crate_names:
+                if self._tail_index is None:
+                    self._tail_index = defaultdict(list)
+                    for b in self.bodies:
+                        p = b.key.split("::")
+                        if len(p) >= 3 and not b.key.startswith("<"):
+                            self._tail_index[(p[0], p[-2], p[-1])].append(b)
+                cand = self._tail_index.get((parts[0], parts[-2], parts[-1]), [])
+                if len(cand) == 1:
+                    return cand[0]
         return None
 
 
